@@ -207,6 +207,9 @@ def genericX64 (row : Row) (first : Bool) (regs : RegsX64) (mem : Mem) : GenOut 
 /-- The generic path of `<ArchAarch64 as DwarfUnwinding>::unwind_frame`. The returned
 address is the stripped `lr`. -/
 def genericA64 (row : Row) (first : Bool) (regs : RegsA64) (mem : Mem) : GenOut RegsA64 :=
+  -- a caller frame whose return address is undefined is the root: a null return address
+  -- (registers untouched) ends the walk
+  if !first ∧ row.ra = .undefined then .ok 0 regs else
   match evalCfa (getA64 regs) row.cfa with
   | none => .err .couldNotRecoverCfa
   | some cfa =>
